@@ -161,3 +161,31 @@ func stat(name string) {
 }
 
 func svcDecide(dm *model.DecisionMaker) *model.DecisionMakerChoice { return svc.Decide(dm) }
+
+// renameIDs returns a deep copy of the request with alternative ids replaced everywhere they occur (knownAlternatives,
+// choseToMake, currentChoice).
+func renameIDs(req M, ren map[string]string) M {
+	r := asM(deepCopy(req))
+	rn := func(s string) string {
+		if n, ok := ren[s]; ok {
+			return n
+		}
+		return s
+	}
+	for _, a := range asL(r["knownAlternatives"]) {
+		asM(a)["id"] = rn(asS(asM(a)["id"]))
+	}
+	var ch []interface{}
+	for _, c := range asL(r["choseToMake"]) {
+		ch = append(ch, rn(asS(c)))
+	}
+	r["choseToMake"] = ch
+	if mp := asM(r["methodParameters"]); mp != nil {
+		if cc, ok := mp["currentChoice"]; ok {
+			mp["currentChoice"] = rn(asS(cc))
+		}
+	}
+	return M(r)
+}
+
+var untidyIDs = map[string]string{"a": " a", "b": "b ", "c": "C", "zz": " "}
